@@ -442,10 +442,19 @@ def record_target(rec):
 
 
 def end_to_end(chk, rng, nproj):
-    stats = {"runs": 0, "markers": 0, "occurrences": 0, "pages_with_refs": 0, "code_spans": 0, "judged": 0}
+    stats = {"runs": 0, "markers": 0, "occurrences": 0, "pages_with_refs": 0, "code_spans": 0, "judged": 0,
+             "incl_src_false_runs": 0}
     for k in range(nproj):
         pj = G.gen(rng, {"p_private": 0.0})
-        w, p, ab, md, base = setup_project(G.fill(pj["files"], {}))
+        # one or two non-Fortran source files (extra_filetypes); incl_src on in one run, off in the next
+        pj["files"]["src/tool.py"] = "#! A helper script.\nprint(1)\n"
+        if k % 3 == 0:
+            pj["files"]["src/deck.inp"] = "*! An input deck.\n1 2 3\n"
+        incl = k % 2 == 0
+        from ford.settings import ExtraFileType
+        psettings = {"incl_src": incl, "extra_filetypes": {"py": ExtraFileType("py", "#"),
+                                                           "inp": ExtraFileType("inp", "*")}}
+        w, p, ab, md, base = setup_project(G.fill(pj["files"], {}), **psettings)
         w.__exit__()
         page_keys = ["@project", "@summary", "@author", "@page", "@subpage"]
         marks = e2e_docs(rng, ab, [d for d in pj["docs"] if rng.random() < 0.6] + page_keys, 2)
@@ -455,10 +464,13 @@ def end_to_end(chk, rng, nproj):
         for key in page_keys:
             for n in rng.sample(inner, min(3, len(inner))):
                 marks[len(marks)] = (key, (spell(rng, n), None, None, None))
+            marks[len(marks)] = (key, ("tool.py", rng.choice([None, "file"]), None, None))
+        for key in rng.sample(pj["docs"], min(4, len(pj["docs"]))):
+            marks[len(marks)] = (key, (rng.choice(["tool.py", "deck.inp", "Tool.py"]), rng.choice([None, "file"]), None, None))
         skip = set()
         for attempt in range(2):        # drop the references that raise (they would abort the run)
             docs = doc_texts(marks, skip)
-            w, p, ab, md, base = setup_project(G.fill(pj["files"], docs))
+            w, p, ab, md, base = setup_project(G.fill(pj["files"], docs), **psettings)
             try:
                 ctx_of = locate(ab, marks, page_keys)
                 for kk, (key, r) in marks.items():
@@ -481,9 +493,12 @@ def end_to_end(chk, rng, nproj):
         author = docs.get("@author", "none").split("\n")[0]
         with F.Work(files) as w2:
             err, log, records, project = spied_run(w2.root, {"page_dir": "./pages", "summary": summary, "author": "me",
-                                                             "author_description": author},
+                                                             "author_description": author,
+                                                             "incl_src": "true" if incl else "false",
+                                                             "extra_filetypes": ["py #", "inp *"]},
                                                    docs.get("@project", "Project.") + "\n")
             stats["runs"] += 1
+            stats["incl_src_false_runs"] += not incl
             chk.count(("e2e", tuple(sorted(files))), sample={"e2e_files": sorted(files), "markers": len(records)})
             if err or project is None:
                 chk.violation("failing-input", {"what": "FORD failed on a project whose references all convert",
@@ -704,6 +719,15 @@ def run(chk):
                 (CORPUS_FILES, {"incl_src": False}, (lambda ab: corpus_queries(ab, 3)) if quick else corpus_queries, 20),
                 (CORPUS_FILES, {"display": ["public", "private", "protected"], "proc_internals": True},
                  (lambda ab: corpus_queries(ab, 2)) if quick else corpus_queries, 40)]
+    from ford.settings import ExtraFileType
+    xfiles = dict(ext_files)
+    xfiles["src/make_deck.py"] = "#! Writes the input deck.\nprint(1)\n"
+    xfiles["src/notes.inp"] = "*! An input file.\n1 2 3\n"
+    xrefs = ["make_deck.py", "make_deck.py(file)", "MAKE_DECK.PY", "notes.inp(file)", "x.f90", "x.f90(file)", "mpi"]
+    for incl in (True, False):          # source files (Fortran or not) have a page only when incl_src is set
+        projects.append((xfiles, {"incl_src": incl, "extra_filetypes": {"py": ExtraFileType("py", "#"),
+                                                                        "inp": ExtraFileType("inp", "*")}},
+                         lambda ab: [(c, t) for c in [None] + ab.contexts() for t in xrefs], 10))
     for i in range(4 if quick else 40):
         pj = G.gen(rng, {"p_private": 0.35 if i % 4 else 0.0})
         settings = {"display": ["public", "private", "protected"]} if i % 3 == 0 else \
